@@ -50,6 +50,8 @@ class Engine(object):
             c["_file"] = os.path.basename(path)
             self.contracts[q] = c
         self.fields.update(getattr(mod, "FIELDS", {}))
+        self.fields.setdefault("builtins.dict.__keys__", "map[str,bool]")
+        self.fields.setdefault("builtins.dict.__vals__", "map[str,obj]")
         self.default_list.update(getattr(mod, "DEFAULT_LIST", {}))
         self.trusted.extend(getattr(mod, "TRUSTED", []))
         self.homs.update(getattr(mod, "HOMS", {}))
@@ -177,6 +179,10 @@ class Engine(object):
                 continue
             if not isinstance(c, ClassV):
                 raise Unsupported("isinstance with non-class")
+            if c.qual == "builtins.dict":
+                UFS["isdict"] = ([REF], BOOL)
+                outs.append(TRUE if obj.cls == "builtins.dict" else App("isdict", (obj.term,), BOOL))
+                continue
             nm = "isa_" + c.qual.replace(".", "__")
             UFS[nm] = ([REF], BOOL)
             outs.append(App(nm, (obj.term,), BOOL))
